@@ -31,6 +31,12 @@ type Case struct {
 	// Both: a plain AND a cached reporter are configured. Whichever of them is handed gauge values at
 	// all must end up with the last update as its most recent value.
 	Both bool `json:"both,omitempty"`
+	// Via: per gauge, through which spelling of the SAME scope the updater's handle was obtained
+	// (0: the root only; else the updater alternates between the root's handle and 1: root.Tagged(nil); 2: root.Tagged({}); 3: root.SubScope("") - all of them are
+	// the root's own prefix and tags, so all name the one gauge the first handle names), and the
+	// registry's shard count (0: 1)
+	Via    []int `json:"via,omitempty"`
+	Shards uint  `json:"shards,omitempty"`
 }
 
 func gen(t *rapid.T) Case {
@@ -58,6 +64,12 @@ func gen(t *rapid.T) Case {
 	for i := 0; i < nr; i++ {
 		c.Passes = append(c.Passes, rapid.IntRange(1, 3).Draw(t, "npasses"))
 	}
+	if rapid.IntRange(0, 3).Draw(t, "via?") == 0 {
+		for i := 0; i < ng; i++ {
+			c.Via = append(c.Via, rapid.IntRange(0, 3).Draw(t, "via"))
+		}
+		c.Shards = uint(rapid.SampledFrom([]int{1, 2, 4, 16, 64}).Draw(t, "shards"))
+	}
 	c.Sched = sgen.Choices(t, 120, ng+nr)
 	return c
 }
@@ -75,10 +87,28 @@ func run(c Case) (pbt.Outcome, error) {
 	} else {
 		opts.Reporter = &rec.Stats{L: log, Caps: rec.CapsOf(c.Caps)}
 	}
-	root, _ := tally.VerifNewRootScope(opts, 0, 1)
+	shards := c.Shards
+	if shards == 0 {
+		shards = 1
+	}
+	root, _ := tally.VerifNewRootScope(opts, 0, shards)
 	gauges := make([]tally.Gauge, len(c.Updates))
+	aliases := make([]tally.Gauge, len(c.Updates)) // the updater alternates between the two handles
 	for i := range c.Updates {
 		gauges[i] = root.Gauge(fmt.Sprintf("g%d", i))
+		if i < len(c.Via) && c.Via[i] > 0 {
+			var alias tally.Scope
+			switch c.Via[i] {
+			case 1:
+				alias = root.Tagged(nil)
+			case 2:
+				alias = root.Tagged(map[string]string{})
+			default:
+				alias = root.SubScope("")
+			}
+			aliases[i] = alias.Gauge(fmt.Sprintf("g%d", i))
+			out.Classes = append(out.Classes, "handle-through-another-spelling-of-the-root")
+		}
 	}
 	for i := 0; i < c.Filler; i++ {
 		root.Gauge(fmt.Sprintf("f%d", i)).Update(0.5)
@@ -93,7 +123,11 @@ func run(c Case) (pbt.Outcome, error) {
 		s.Go(fmt.Sprintf("upd%d", gi), func() {
 			for ui, v := range vs {
 				log.Mark("upd-start g%d %d", gi, ui)
-				gauges[gi].Update(v.V())
+				if aliases[gi] != nil && ui%2 == 1 {
+					aliases[gi].Update(v.V())
+				} else {
+					gauges[gi].Update(v.V())
+				}
 				log.Mark("upd-end g%d %d", gi, ui)
 				s.Yield("harness:after-update")
 			}
@@ -266,7 +300,7 @@ func describe(e *rec.Event) string {
 func TestC02(t *testing.T) {
 	pbt.Main(t, pbt.Prop[Case]{
 		ID: "C02", Name: "sched",
-		Rule: "cooperative-scheduler mode: rapid generates 1..2 gauges each with one updater thread (1..6 values from hostile float64 bit patterns: NaN payloads, +-Inf, -0, subnormals, raw bits), 1..3 reporter threads x 1..3 modelled ticker passes, plain/cached, AND the schedule (<=120 choices at the yield points between the two stores of Update, between swap and load of the report, and at the reporter call, i.e. between load and delivery). Then a sequential pass and a second one that must be silent. Oracle over the ordered log: every delivered value is bit-identical to a value whose Update had started; deliveries never outnumber started updates; the first pass starting after the last Update returned leaves the most recent delivered value equal to the last update, as does the end of the history; no re-delivery without update. Non-trivial: a preempted Update store/store, swap/load or load/deliver window. Distinct: FNV-64 of program+schedule JSON.",
+		Rule: "cooperative-scheduler mode: rapid generates 1..2 gauges each with one updater thread (1..6 values from hostile float64 bit patterns: NaN payloads, +-Inf, -0, subnormals, raw bits), 1..3 reporter threads x 1..3 modelled ticker passes, plain/cached, in a quarter of the cases the updaters' handles obtained through another spelling of the root (Tagged(nil), Tagged({}), SubScope(\"\")) under 1..64 registry shards, AND the schedule (<=120 choices at the yield points between the two stores of Update, between swap and load of the report, and at the reporter call, i.e. between load and delivery). Then a sequential pass and a second one that must be silent. Oracle over the ordered log: every delivered value is bit-identical to a value whose Update had started; deliveries never outnumber started updates; the first pass starting after the last Update returned leaves the most recent delivered value equal to the last update, as does the end of the history; no re-delivery without update. Non-trivial: a preempted Update store/store, swap/load or load/deliver window. Distinct: FNV-64 of program+schedule JSON.",
 		Gen:  gen, Run: run, Retries: 10,
 	})
 }
